@@ -148,11 +148,9 @@ theorem normalise_fix (cls : String) (a : List Op) (kw : List (String × Op))
       | leaf l => simp [Op.cls] at h
       | val v => simp [Op.cls] at h
       | node c aa dn' d' nkw' hid' =>
-        simp only [Op.cls, Bool.and_eq_true, Bool.or_eq_true, Bool.not_eq_true', bne_iff_ne, ne_eq] at h
-        obtain ⟨⟨⟨_, _⟩, htl⟩, hbr⟩ := h
-        have hc : ¬ c = "TriangularLinearOperator" := by
-          intro e; subst e; revert htl; decide
-        simp only [hc, if_false, htl, Bool.false_eq_true]
+        simp only [Op.cls, Bool.and_eq_true, Bool.or_eq_true, bne_iff_ne, ne_eq] at h
+        obtain ⟨⟨⟨_, _⟩, hc⟩, hbr⟩ := h
+        simp only [hc, if_false]
         by_cases hb : c = "BatchRepeatLinearOperator"
         · simp only [hb, if_true]
           rcases hbr with hbr | hbr
@@ -162,8 +160,9 @@ theorem normalise_fix (cls : String) (a : List Op) (kw : List (String × Op))
             | cons b t =>
               cases t with
               | nil =>
-                have hb' : b.cls = "TriangularLinearOperator" := by simpa [subTriOp] using hbr
-                simp [hb']
+                have hb' : triangularLike.contains b.cls = true := by simpa [subTriOp] using hbr
+                have hb'' : b.cls ∈ triangularLike := by simpa using hb'
+                simp [hb'']
               | cons _ _ => simp [subTriOp] at hbr
         · simp only [hb, if_false]
   rw [if_neg h3] at h ⊢
@@ -348,7 +347,7 @@ def Skel.cls : Skel → String
 theorem cls_skel (x : Op) : (skel x).cls = x.cls := by cases x <;> rfl
 
 def Skel.subTri : Skel → Bool
-  | .node _ [b] _ _ _ _ => b.cls = "TriangularLinearOperator"
+  | .node _ [b] _ _ _ _ => triangularLike.contains b.cls
   | _ => false
 
 theorem subTri_skel (x : Op) : (skel x).subTri = subTriOp x := by
